@@ -152,8 +152,10 @@ func (s *Server) Session(strm signaling.SRPCSignaling_SessionStream) error {
 	}
 
 	sess.seqno++
-	sess.broadcast()
+	// take the wait channel before broadcasting: our first wait returns at once,
+	// so that we announce the state we just registered into.
 	waitCh := sess.getWaitCh()
+	sess.broadcast()
 
 	s.mtx.Unlock()
 
